@@ -76,7 +76,10 @@ class Sim:
             c = pool(minbins=1)
             if not c:
                 return
+            # one combine in five pairs an array with ITSELF (two of its bins, or one bin with itself: documented effect bins[i] += bins[i])
             h1 = rng.choice(c); c2 = [x for x in pool(keep=self.h[h1][0], minbins=1) if x != h1]
+            if rng.random() < 0.2:
+                c2 = [h1]
             if not c2:
                 return
             h2 = rng.choice(c2)
@@ -109,6 +112,10 @@ def units(rng, tier):
                         out.append(([6, h, h2], c, total + 1))
                         if nb > 0 and nb2 > 0:
                             out.append(([7, h, 0, h2, nb2 - 1], dict(hs), total))
+                if nb > 0:
+                    out.append(([7, h, 0, h, nb - 1], dict(hs), total))      # an array combined with itself
+                    if nb > 1:
+                        out.append(([7, h, 0, h, 0], dict(hs), total))       # a bin combined with itself
             return out
         frontier = [([], hs0, 2)]
         allseq = []
